@@ -20,19 +20,30 @@ FIBRE_SPACE = {
     'length': [80.0, 0.5, 25.0, 200.0],
     'loss': [0.2, 0.17, 0.3],
     'dispersion': [1.67e-5, 4e-6, 2.2e-5],
-    'slope': [None, 60.0],
+    'slope': [None, 60.0, 0.0],       # 0.0: a slope that is given and happens to be zero (not the same model as no slope)
     'nl': ['area83', 'area50', 'gamma1.3', 'gamma2.0'],
     'con_in': [0.0, 0.5],
     'att_in': [0.0, 2.0],
     'kind': ['Fiber', 'RamanFiber'],      # a RamanFiber without pumps, Raman computation off: the same closed form
     'loss_table': [False, True, 'desc'],      # per-frequency loss table, listed by increasing / decreasing frequency
     'sim': ['plain', 'computed_channels', 'computed_number', 'raman_off_explicit'],
+    # reference point of the fibre description (gamma / effective area / dispersion are given AT this point): default
+    # 1550 nm, or given as a frequency or as a wavelength
+    'ref': [None, 'f196', 'w1530'],
 }
+
+
+def ref_wavelength(fc):
+    return {None: 1550e-9, 'f196': C0 / 196e12, 'w1530': 1530e-9}[fc.get('ref')]
 
 
 def fibre_json(fc):
     p = {'length': fc['length'], 'length_units': 'km', 'loss_coef': fc['loss'], 'con_in': fc['con_in'], 'con_out': 0.3,
          'att_in': fc.get('att_in', 0.0)}
+    if fc.get('ref') == 'f196':
+        p['ref_frequency'] = 196e12
+    elif fc.get('ref') == 'w1530':
+        p['ref_wavelength'] = 1530e-9
     if fc['slope'] is not None:
         p['dispersion_slope'] = fc['slope']      # read from the element parameters (the library entry ignores it)
     if fc['loss_table']:
@@ -146,7 +157,7 @@ def reference_envelope(f, baud, p, alpha, beta2, gamma, length):
 
 
 def configured_gamma_ref(fc):
-    lam = 1550e-9
+    lam = ref_wavelength(fc)
     if fc['nl'].startswith('area'):
         return 2 * math.pi * N2 / (lam * float(fc['nl'][4:]) * 1e-12)
     return float(fc['nl'][5:]) * 1e-3
@@ -171,13 +182,14 @@ def run_case(case):
     traces = 0
     widths = []
     # the model's gamma at the reference frequency must be the configured one (gamma or effective area, either way)
-    g_ref = float(fib.gamma(np.array([C0 / 1550e-9]))[0]) if np.ndim(fib.gamma(np.array([C0 / 1550e-9]))) else float(fib.gamma(C0 / 1550e-9))
+    f_ref = C0 / ref_wavelength(fc)
+    g_ref = float(np.atleast_1d(fib.gamma(np.array([f_ref])))[0])
     if not math.isclose(g_ref, configured_gamma_ref(fc), rel_tol=1e-9):
         v('gamma-not-configured-value', f'fibre configured with {fc["nl"]}: gamma(ref frequency) = {g_ref!r}, '
           f'expected {configured_gamma_ref(fc)!r}')
     # beta2 follows the documented conversion of the configured dispersion (and slope) at every frequency
     for f in (191.4e12, 193.414489e12, 196.0e12):
-        lam, lam0 = C0 / f, 1550e-9
+        lam, lam0 = C0 / f, ref_wavelength(fc)
         if fc['slope'] is None:
             exp_b2 = -C0 * fc['dispersion'] / (2 * math.pi * (C0 / lam0) ** 2)
         else:
